@@ -73,6 +73,12 @@ def main():
         if np.max(np.abs(got_m - want_m)) > 1e-5 * max(1.0, want_m.max()):
             found(clause=f"which={which}: the k eigenvalues of {'largest' if which == 'LM' else 'smallest'} magnitude", input=inp,
                   observed=f"returned {np.round(vals, 4).tolist()}", expected=f"magnitudes {np.round(want_m, 4).tolist()} (spectrum {np.round(ref[order], 3).tolist()})")
+        anns = sorted(a.__name__ for a in getattr(vecs, "annotations", set()))
+        gram_err = np.linalg.norm(V.conj().T @ V - np.eye(V.shape[1]))
+        if "Unitary" in anns and (V.shape[0] != V.shape[1] or gram_err > 1e-6):
+            found(clause="reported Unitary is true of the returned vectors", input=inp, observed=f"{V.shape[0]} x {V.shape[1]} operator annotated {anns}, |V^H V - I| = {gram_err:.2e}", expected="square with orthonormal columns")
+        if "Stiefel" in anns and gram_err > 1e-6:
+            found(clause="reported Stiefel is true of the returned vectors", input=inp, observed=f"annotated {anns}, |V^H V - I| = {gram_err:.2e}", expected="orthonormal columns")
         if herm and np.linalg.norm(V.conj().T @ V - np.eye(k)) > 1e-5:
             found(clause="orthonormal vectors for self-adjoint A", input=inp, observed=f"|V^H V - I| = {np.linalg.norm(V.conj().T @ V - np.eye(k)):.2e}", expected="0")
 
